@@ -274,6 +274,8 @@ def characters(check, tier):
     NUL (width 0) are measurable text; characters without a width (C0 / C1 controls, DEL) make width and width_aware_slice raise"""
     chars = ["\u3000", "\u00a0", "\u200b", "\u200d", "\u00ad", "\u2028", "\ufeff", "\U0001F600", "\u4e2d", "\x00", "\u0301", "\uff25", "\u1100",
              "\t", "\n", "\x7f", "\x85", "\x1b", "\u0600", "\u2060", "\u00e9", "~"]
+    from bounded.common import CHAR_CLASSES
+    chars += [c for c in CHAR_CLASSES if c not in chars]
     s = Suite(check, "C10.characters", f"{len(chars)} characters of different classes (ideographic / no-break / zero-width space, joiner, soft hyphen, "
               "line separator, BOM, emoji, CJK, Hangul jamo, NUL, combining, fullwidth, controls, DEL) inside 'a?' + 'b' in two runs: width, "
               "width_at_offset and every column range against the wcwidth column model; ValueError exactly when a character has no width",
